@@ -173,6 +173,11 @@ def feasible(pc, extra=None):
     """path feasibility on the quantifier-free part of the path condition (over-approximation: sound,
     an infeasible path that survives only yields obligations that are proved from the full condition)"""
     qf = [c for c in pc if not _has_quant(c)]
+    if extra is not None and z3.is_expr(extra):
+        # the path condition literally says the opposite: no solver needed (and none that could run out of budget on the string terms next to it)
+        neg = extra.arg(0) if z3.is_not(extra) else None
+        for c in qf:
+            if (z3.is_not(c) and c.arg(0).eq(extra)) or (neg is not None and c.eq(neg)): return False
     r, _ = check(qf, extra, rlimit=2_000_000)
     if r == z3.unknown:          # out of budget, not "feasible": one more try with a larger budget before the path is kept (keeping it is the sound default)
         r, _ = check(qf, extra, rlimit=60_000_000)
